@@ -214,6 +214,16 @@ Section Extract.
       then sequence (map (fun r => option_map (pair (r_wfi r)) (chunk_wf ci i a len r)) rows)
       else None
     end.
+  (* the public array-level entry point extract_wfs_array(arr, df, channel_neighbors, trough_offset,
+     spike_length_samples): arr has `ns` columns and its NaN row (appended by add_nan_trace, or already
+     there) has index c_nc P; one waveform per row of df; None = IndexError / AssertionError.
+     It is write_wfs_chunk's inner call with chunk 0, snippet = the whole array. *)
+  Definition extract_array (ci : list (list Z)) (ns : Z) (rows : list row) : option (list wf) :=
+    match rows with
+    | [] => None                                           (* df["sample"].iloc[-1] *)
+    | _ => if r_sample (last rows drow) + (c_L P - c_to P) <? ns
+           then sequence (map (chunk_wf ci 0 0 ns) rows) else None
+    end.
   Definition job_writes (ci : list (list Z)) (tb : list row) : list (option (list (Z * wf))) :=
     map (chunk_writes ci tb) (zrange (Z.to_nat nchunks)).
   Definition all_writes (ci : list (list Z)) (tb : list row) : option (list (Z * wf)) :=
